@@ -100,6 +100,9 @@ if os.environ.get('VERIF_OPTIMIZE') == '1':
     # triggers with the installed numpy is exempt
     warnings.filterwarnings('error', category=DeprecationWarning, module=r'nptdms(\..*)?$')
     warnings.filterwarnings('ignore', message='Setting the dtype on a NumPy array has been deprecated', category=DeprecationWarning)
+if sys.flags.bytes_warning >= 2:
+    # `python -bb` (part of the secondary pass): comparing bytes with str is an error wherever it happens
+    warnings.filterwarnings('error', category=BytesWarning)
 np.seterr(all='ignore')
 
 
